@@ -5,6 +5,7 @@ import os
 from vlib import confirm_by_replay, finish, selftest_corrupt
 
 ASSUME = [
+    "model -> code conformance: the 48600 (tree, request list) cases of spec/ResolverMC.tla (quick scope) are written by TLC with the algorithm model's result; the real FollowLinks must return exactly that list (quick tier: every 6th case)",
     "requests are clean relative paths (or the root); '..' is exercised in symlink targets, as the statement quantifies it",
     "the returned elements are include patterns: for request lists containing wildcards only termination, sortedness and containment among literal elements are judged",
     "'sorted' is accepted in byte order of the joined strings or in walk order",
